@@ -21,7 +21,7 @@ pub fn def() -> PropDef {
         run,
         shrink: Shrink::None,
         render,
-        rule: "{LOCAL, PROXY} x {unspec, stream, dgram} x every address value of UA (four families) x 6 fixed TLV lists; one address per family x every raw type byte 0..=255 (value lengths 0, 1, 300) and every TLV list of length <= 2 over 15 type bytes (12 named types through the enum, raw 0x00 0xEE 0xFF) x value lengths {0,1,2,255,256,257}, length-3 lists over a reduced menu, and lists sized to exactly 65534 / 65535 payload bytes; each built three ways: with_addresses(..).write_tlv(..)*, new(..).write_payload(addresses).write_payload(tlv)*, and with_addresses(..).write_payloads(one batch); output compared with the independent encoder, with the reference v2 verdict, and with what the real parser returns (command, transport, addresses, bytes, TLV sequence when a family is specified); non-trivial = every case; distinct = hash of the case",
+        rule: "{LOCAL, PROXY} x {unspec, stream, dgram} x every address value of UA (four families) x 6 fixed TLV lists; one address per family x every raw type byte 0..=255 (value lengths 0, 1, 300) and every TLV list of length <= 2 over 15 type bytes (12 named types through the enum, raw 0x00 0xEE 0xFF) x value lengths {0,1,2,255,256,257}, length-3 lists over a reduced menu, and lists sized to exactly 65534 / 65535 payload bytes; each built four ways: with_addresses(..).write_tlv(..)*, new(..).write_payload(addresses).write_payload(tlv)*, with_addresses(..).write_payloads(one batch), and write_tlv calls interleaved with reserve_capacity hints; output compared with the independent encoder, with the reference v2 verdict, and with what the real parser returns (command, transport, addresses, bytes, TLV sequence when a family is specified); non-trivial = every case; distinct = hash of the case",
         assumptions: &["TLV values are position-dependent byte patterns, plus every string up to length 5/6 over {00,01,02,03,FF,own type code}; not arbitrary bytes", "registered TLV type codes are copied from the specification text (PP2_TYPE_*)"],
     }
 }
@@ -214,9 +214,15 @@ fn check(c: &Case, acc: &mut Acc) {
     // path 3: with_addresses + one write_payloads batch of (type byte, value) pairs
     let batch: Vec<(u8, &[u8])> = c.tlvs.iter().zip(values.iter()).map(|(t, v)| (t.code(), v.as_slice())).collect();
     let out3 = Builder::with_addresses(Version::Two | command, protocol, addresses).write_payloads(batch).and_then(|b| b.build());
-    acc.eval(3);
-    acc.validated(3);
-    for (how, out) in [("Builder::with_addresses(..).write_tlv(..)*.build()", &out1), ("Builder::new(..).write_payload(addresses).write_payload(tlv)*.build()", &out2), ("Builder::with_addresses(..).write_payloads(all TLVs as one batch).build()", &out3)] {
+    // path 4: as a caller that sizes the buffer as it goes: a capacity hint before, between and after the writes
+    let mut b: std::io::Result<Builder> = Ok(Builder::with_addresses(Version::Two | command, protocol, addresses).reserve_capacity(8));
+    for (t, v) in c.tlvs.iter().zip(values.iter()) {
+        b = b.and_then(|b| b.write_tlv(t.code(), v)).map(|b| b.reserve_capacity(v.len() + 3));
+    }
+    let out4 = b.map(|b| b.reserve_capacity(0)).and_then(|b| b.build());
+    acc.eval(4);
+    acc.validated(4);
+    for (how, out) in [("Builder::with_addresses(..).write_tlv(..)*.build()", &out1), ("Builder::new(..).write_payload(addresses).write_payload(tlv)*.build()", &out2), ("Builder::with_addresses(..).write_payloads(all TLVs as one batch).build()", &out3), ("Builder::with_addresses(..).reserve_capacity(8).(write_tlv(..).reserve_capacity(n))*.build()", &out4)] {
         match out {
             Ok(bytes) if *bytes == want => {}
             Ok(bytes) => {
